@@ -99,11 +99,39 @@ func main() {
 	repo := flag.String("repo", "/repo", "repository working tree")
 	out := flag.String("out", "/verif/lean/WS/Gen", "output directory for generated Lean files")
 	jsonOut := flag.String("json", "", "also write the ordered skeleton as JSON to this file (for diagnostics and for bin/skeleton-snapshot)")
+	golden := flag.String("golden", "/verif/cir/skeleton_ordered.json", "the committed ordered skeleton (declared side of the path-language tie)")
+	diff := flag.Bool("diff", false, "print, per function whose path language differs from the golden one, a shortest distinguishing path")
 	flag.Parse()
+	goldenPath = *golden
 	p, err := load(*repo)
 	if err != nil {
 		fmt.Fprintln(os.Stderr, "extract: load:", err)
 		os.Exit(2)
+	}
+	if *diff {
+		want := map[string][]string{}
+		if b, err := os.ReadFile(goldenPath); err == nil {
+			json.Unmarshal(b, &want)
+		}
+		got := genSkeletonOrdered(p)
+		names := map[string]bool{}
+		for n := range want {
+			names[n] = true
+		}
+		for n := range got {
+			names[n] = true
+		}
+		var ns []string
+		for n := range names {
+			ns = append(ns, n)
+		}
+		sort.Strings(ns)
+		for _, n := range ns {
+			if d := distinguish(want[n], got[n]); d != "" {
+				fmt.Printf("PATHDIFF %s: %s\n", n, d)
+			}
+		}
+		return
 	}
 	gens := []struct {
 		name string
